@@ -126,6 +126,8 @@ def sites_of(f):
                 if any(p in full for p in MAY_PANIC[name]):
                     out.append({"kind": "call:" + name, "bb": bi, "at": t["sp"]["at"], "term": t, "ops": list(t["a"]),
                                 "mac": macro_kind(t["sp"].get("mac")), "detail": c.get("rfull") or c["full"]})
+    for s in out:
+        s["origin"] = f.blocks[s["bb"]].get("origin")
     cnt = {}
     for s in out:
         s["asig"] = _names_of(f, s["ops"], locals_too=False) if s["ops"] else (s.get("detail", "").split("::")[-1] if s["kind"].startswith("diverge") else "")
@@ -725,8 +727,40 @@ def inventory(prog, entry_keys, stop, table, scope_crates=None):
     # through the name-free key, so renaming locals keeps reviewed reasons attached.
     counters, acounters, kcounters = {}, {}, {}
     staged = []
+    # private helpers that are spliced into every caller in scope (inline.py) are analysed there, with
+    # the caller's guards in view, and not a second time on their own
+    from . import inline as _inline
+    callers_of = {}
+    for k in keys:
+        for bi, t in prog.funcs[k].calls():
+            c = callee_of(t)
+            if c:
+                tk = c.get("rdef") or c["def"]
+                if tk in prog.funcs:
+                    callers_of.setdefault(tk, []).append((k, t))
+    spliced = set()
+    for hk, sites_ in callers_of.items():
+        if hk in keys and all(_inline.inlinable(prog, prog.funcs[ck], t) is not None for ck, t in sites_):
+            spliced.add(hk)
+    spliced = {hk for hk in spliced if hk not in entry_keys}
+    # helpers that a reviewed reason refers to by name (ok-edge-of / err-guard / pred-guard) stay calls
+    named, named_keys = set(), set()
+    for e in table.values():
+        rq = e.get("requires")
+        for q in (rq if isinstance(rq, list) else [rq] if rq else []):
+            if q.get("callee_name"):
+                named.add(q["callee_name"])
+            if q.get("func"):
+                named_keys.add(q["func"])
+    spliced = {hk for hk in spliced if hk not in named_keys and (prog.funcs[hk].name or "") not in named}
+    no_inl = getattr(prog, "_no_inline", set()) | {hk for hk in callers_of if (prog.funcs[hk].name or "") in named or hk in named_keys}
+    if no_inl != getattr(prog, "_no_inline", set()):
+        prog._no_inline = no_inl
+        prog.__dict__.pop("_inlined", None)
     for k in sorted(keys, key=lambda kk: (root_key(kk), kk)):
-        f = prog.funcs[k]
+        if root_key(k) in spliced:
+            continue
+        f = prog.fn(k) if "{closure" not in k else prog.funcs[k]
         for s in sites_of(f):
             ck = (root_key(k), s["kind"], s["sig"])
             s["ord"] = counters.get(ck, 0)
@@ -764,7 +798,7 @@ def inventory(prog, entry_keys, stop, table, scope_crates=None):
                 if cand is not None and cand["key"] not in present:
                     table[key] = cand
             ok, how = discharge(an, f, s)
-            rec = {"func": k, "site": s, "key": key, "akey": s["akey"], "kkey": s["kkey"], "nkind": s["nkind"], "at": s["at"], "path": ir.Program.path_to(reach, k)}
+            rec = {"func": k, "site": s, "key": key, "akey": s["akey"], "kkey": s["kkey"], "nkind": s["nkind"], "origin": s.get("origin"), "at": s["at"], "path": ir.Program.path_to(reach, k)}
             if ok:
                 rec.update(verdict="auto", how=how)
             elif key in table and ("requires" not in table[key] or check_requires(prog, f, s, table[key]["requires"])[0]):
